@@ -218,7 +218,10 @@ def do_quantize(w, d, op, p):
     w.judged("C13")
     after = [(n, m) for n, m in model.named_modules()]
     if [n for n, _ in after] != [n for n, _ in before]:
-        w.violate("C08", "structure", "quantize", {"issue": "names"}, f"names changed: {[n for n, _ in before]} -> {[n for n, _ in after]}", p)
+        shared = '"ref"' in json.dumps(d.arch)
+        w.violate("C08", "structure", "quantize", {"issue": "names", "shared_instance": shared}, f"names changed: {[n for n, _ in before]} -> {[n for n, _ in after]}", p)
+        if shared:
+            d.broken = True  # the second name still holds the gutted original: nothing sensible can follow
     else:
         for (n, mb), (_, ma) in zip(before, after):
             if n in predicted:
